@@ -34,6 +34,23 @@ FIXED_NAME_OK = {"pred_turnout": "two-party turnout prediction: produced for the
 LOOP_STEPS = ("get_unit_predictions", "get_unit_prediction_intervals", "get_aggregate_predictions", "get_aggregate_prediction_intervals")
 
 
+def _open_loopins(t, closed=frozenset(), depth=0):
+    """loopin nodes of loops that are still running where the term is used: a loopin inside the loopout of the same loop is the inner view of a
+    loop that has finished (its result is an ordinary value), one that is not enclosed by its loopout is a value carried over from the previous
+    iteration of an enclosing loop"""
+    out = []
+    if not isinstance(t, tuple) or not t or depth > 80:
+        return out
+    if t[0] == "loopout":
+        closed = closed | {t[1]}
+    elif t[0] == "loopin" and t[2] not in closed:
+        out.append(t)
+    for x in t:
+        if isinstance(x, tuple):
+            out += _open_loopins(x, closed, depth + 1)
+    return out
+
+
 def _loop_invariant_frames(ctx):
     """R9: inside the client's estimand / level / aggregate loops the unit frames handed to a model step are the same objects in every
     iteration: no frame argument is a value carried over from an earlier iteration (a local narrowed for one aggregate and never reset
@@ -48,7 +65,7 @@ def _loop_invariant_frames(ctx):
                 nfr = 2 if x[1][2].startswith("get_unit") else 3
                 for i, a in enumerate(x[2][:nfr]):
                     n += 1
-                    carried = [y for y in ir.walk(a) if y[0] == "loopin"]
+                    carried = _open_loopins(a)
                     ctx.ob("C13.R9.frames", f"{ge.qualname}|{x[1][2]} frame argument {i} is the same in every iteration", not carried, ge.where(),
                            "the frame does not depend on earlier iterations of the request loops" if not carried
                            else f"frame argument {i} of {x[1][2]} is {ir.show(a, maxdepth=3)[:120]}: its value is carried over from an earlier iteration of "
